@@ -122,7 +122,16 @@ impl<C: Config, Q: Query> Snapshot<C, Q> {
         let timestamp = caller_information.timestamp();
         let query = query.clone();
 
+        // `caller_information` is only borrowed and cannot move into the
+        // guarded block, which outlives a dropped caller; the block holds its
+        // own clone of the guard so that no input session can start while it
+        // is still publishing
+        let active_computation_guard =
+            caller_information.clone_active_computation_guard();
+
         async move {
+            let _active_computation_guard = active_computation_guard;
+
             #[cfg(feature = "verif_hooks")]
             crate::engine::verif::yield_point("execute::publish_begin").await;
 
